@@ -119,10 +119,12 @@ func formTokenMatcher(delims []string) *regexp.Regexp {
 	// [^T]|T[^A]|TA[^G]|TAG[^!]|TAG![^R]|TAG!R[^I]|TAG!RI[^G]|TAG!RIG[^H]|TAG!RIGH[^T]
 	exclusion := make([]string, 0, len(delims[3]))
 	for idx, val := range delims[3] {
-		exclusion = append(exclusion, "[^"+regexp.QuoteMeta(string(val))+"]")
+		// (idx is a byte offset: it is not the index of this alternative when a multi-byte character precedes)
+		alt := "[^" + regexp.QuoteMeta(string(val)) + "]"
 		if idx > 0 {
-			exclusion[idx] = regexp.QuoteMeta(delims[3][0:idx]) + exclusion[idx]
+			alt = regexp.QuoteMeta(delims[3][0:idx]) + alt
 		}
+		exclusion = append(exclusion, alt)
 	}
 
 	tokenMatcher := regexp.MustCompile(
